@@ -41,6 +41,28 @@ def _(self):
     holds(locked(self.pageout_all) == (self.pageout_count > 0) and not locked(self.pageout_one), tag="W3-eviction-lock-held-iff-jobs-pending", top=True)
 
 
+@assumed("cascade.shm.disk:Disk.__init__")
+def _(self):
+    # creates the spill directory and two thread pools: outside the property
+    modifies("root", "readers", "writers", "events")
+
+
+@assumed("cascade.shm.dataset:get_capacity")
+def _():
+    # what findmnt reports for /dev/shm: some non-negative number of bytes
+    ensures(result() >= 0)
+    modifies()
+
+
+@contract("cascade.shm.dataset:Manager.__init__")
+def _(self, prefix, capacity):
+    requires(capacity is None or typed(capacity, int) >= 0)
+    # the store starts empty with ALL of its (possibly trimmed) capacity free: W1 is established
+    ensures(len(self.datasets) == 0 and self.free_space == self.capacity and self.pageout_count == 0, tag="starts-empty-with-capacity-free", top=True)
+    ensures(implies(capacity is not None and typed(capacity, int) > 0, self.capacity <= typed(capacity, int)), tag="never-more-than-configured", top=True)
+    modifies("datasets", "capacity", "free_space", "pageout_all", "pageout_one", "pageout_count", "disk", "prefix", "locked", "events", "root", "readers", "writers")
+
+
 @contract("cascade.shm.dataset:Dataset.is_pageoutable", prop="C09")
 def _(self, ref_time):
     # "neither paged out nor unlinked while a reader (younger than the staleness window) still holds it": evictable only when
